@@ -115,7 +115,61 @@ def r19_3(ctx):
     ctx.ob("R19.3", "run-returns-indicator", k >= 2, "run() returns TokenizerResult::EncodingIndicator on both the profiled and the plain loop")
 
 
+def r19_5(ctx):
+    """'extract a character encoding from a meta element': the byte predicates of the scanner are the standard's sets.
+    Each closure over a single byte (no captured variable) is a pure function of that byte; its table over all 256 values is
+    extracted by partial evaluation and compared: whitespace skipping = ASCII whitespace, the end of an unquoted value = ASCII
+    whitespace or ';'"""
+    from lib.ast import walk
+    from lib.flat import Config, explore, run_body
+    its = [x for x in ctx.ast.crates["html5ever"] if x["k"] == "Fn" and x["name"] == "extract_a_character_encoding_from_a_meta_element" and x.get("body") is not None]
+    if len(its) != 1:
+        raise AnchorMissing("extract_a_character_encoding_from_a_meta_element not found")
+    clos = []
+
+    def f(n):
+        if n.get("k") == "MethodCall" and n.get("m") in ("position", "take_while", "find", "skip_while", "rposition"):
+            for arg in n.get("args", []):
+                if arg.get("k") == "Closure" and len(arg.get("params", [])) == 1 and arg["params"][0].get("k") == "PIdent":
+                    clos.append((n["m"], arg))
+    walk(its[0]["body"], f)
+    WS = {9, 10, 12, 13, 32}
+    sets = []
+    for m, c in clos:
+        pname = c["params"][0]["name"]
+        free = set()
+
+        def g(n):
+            if n.get("k") == "Path" and "::" not in n["path"] and n["path"] != pname and n["path"][:1].islower():
+                free.add(n["path"])
+        walk(c["body"], g)
+        if free:
+            continue  # depends on a captured value (the quote character): not a fixed set
+        members = set()
+        for v in range(256):
+            cfg = Config(acquire={}, primitives=set(), inline={}, guards=set(), samples=[], accessors=set(), full_call_text=True, generic_loops=True, consts={})
+            body = c["body"] if isinstance(c["body"], list) else [{"k": "ExprStmt", "e": c["body"], "semi": False}]
+            paths = explore(cfg, lambda run, v=v: run_body(run, body, {pname: v}))
+            outs = {p["outcome"][1] if len(p["outcome"]) > 1 else None for p in paths}
+            if outs == {True}:
+                members.add(v)
+            elif outs != {False}:
+                raise AnchorMissing("byte predicate of .%s() is not decidable for byte %d: %s" % (m, v, outs))
+        sets.append((m, members))
+    skip = [ms for m, ms in sets if m in ("take_while", "skip_while")]
+    term = [ms for m, ms in sets if m in ("position", "find")]
+    ctx.ob("R19.5", "meta-charset-whitespace-skipping", len(skip) == 2 and all(ms == WS for ms in skip),
+           "after 'charset' and after '=' exactly ASCII whitespace (TAB LF FF CR SPACE) is skipped" if len(skip) == 2 and all(ms == WS for ms in skip) else
+           "whitespace skipping uses %s, the standard says two skips of ASCII whitespace %s" % ([sorted(ms) for ms in skip], sorted(WS)), "html5ever encoding.rs extract_a_character_encoding_from_a_meta_element")
+    ok = len(term) == 1 and term[0] == WS | {59}
+    ctx.ob("R19.5", "meta-charset-unquoted-value-end", ok, "an unquoted value ends at the first ASCII whitespace or ';'" if ok else
+           "an unquoted value ends at bytes %s; the standard says ASCII whitespace or ';' %s" % ([sorted(ms) for ms in term] or "(no byte predicate found)", sorted(WS | {59})),
+           "html5ever encoding.rs extract_a_character_encoding_from_a_meta_element")
+
+
 def run(ctx):
+    ctx.rule("R19.5", "the byte sets of the meta charset scanner (whitespace skipping, end of an unquoted value) are the standard's")
+    ctx.guard("R19.5", "scanner-sets", lambda: r19_5(ctx))
     ctx.rule("R19.1", "EncodingIndicator is constructed only in InHead, only for start tag meta, after insertion; charset first, else http-equiv=content-type + extraction from content")
     ctx.rule("R19.2", "no other tree-builder function (step_foreign included) constructs it")
     ctx.rule("R19.3", "process_to_completion, emit_current_tag and run return it unchanged and at once")
